@@ -116,8 +116,41 @@ def _source_hashes(functions):
     return out
 
 
+def _clean(res):
+    return (not res.get("crashed") and not res.get("unsupported") and res.get("obligations")
+            and all(o.get("status") == "proved" for o in res["obligations"]))
+
+
 def _run_unit(modname, unit_name, tier, seed):
-    """executed in a worker process"""
+    """executed in a worker process.  If the unit does not verify and some function of the tree has other local names than
+    the ones recorded for the unchanged tree, the unit is repeated on alpha-equivalent copies (pyvc/alpha.py)"""
+    res = _run_unit_once(modname, unit_name, tier, seed)
+    if _clean(res) or res.get("kind") in ("closed", "frame", "bounded") or os.environ.get("PYVC_NO_ALPHA") == "1":
+        return res
+    try:
+        from . import alpha as _alpha, interp as _interp
+        maps = _alpha.candidates(REPO)
+    except Exception:
+        return res
+    t0 = time.time()
+    for m in maps:
+        _interp.ALPHA = m
+        try:
+            r2 = _run_unit_once(modname, unit_name, tier, seed)
+        finally:
+            _interp.ALPHA = {}
+        if _clean(r2):
+            desc = "; ".join(f"{q.rsplit('.', 1)[-1]}: " + ", ".join(f"{n}->{o}" for n, o in mm.items()) for q, mm in sorted(m.items()))
+            r2.setdefault("notes", []).append("verified on an alpha-equivalent copy (locals renamed back to the names the sidecar contract "
+                                              f"was written for): {desc}")
+            r2["seconds"] += res.get("seconds", 0.0)
+            return r2
+        if time.time() - t0 > 600:
+            break
+    return res
+
+
+def _run_unit_once(modname, unit_name, tier, seed):
     import importlib
     t0 = time.time()
     res = dict(unit=unit_name, obligations=[], paths=0, infeasible=0, unsupported=[], notes=[],
